@@ -38,6 +38,18 @@ Theorem C22_generate_sdmx_skeleton_frame : forall nc k,
   caller_view nc (run_prefix k generate_sdmx_o (oinit nc)) = repeat [] nc.
 Proof. exact generate_sdmx_skeleton_frame. Qed.
 
+Theorem C22_validate_value_domain_skeleton_frame : forall nc k,
+  caller_view nc (run_prefix k validate_vd_o (oinit nc)) = repeat [] nc.
+Proof. exact validate_vd_skeleton_frame. Qed.
+
+Theorem C22_validate_external_routine_skeleton_frame : forall nc k,
+  caller_view nc (run_prefix k validate_er_o (oinit nc)) = repeat [] nc.
+Proof. exact validate_er_skeleton_frame. Qed.
+
+Theorem C22_create_ast_skeleton_frame : forall nc k,
+  caller_view nc (run_prefix k create_ast_o (oinit nc)) = repeat [] nc.
+Proof. exact create_ast_skeleton_frame. Qed.
+
 (* validate_dataset, current code (validation on a renamed copy), every number of frames, every input class *)
 Theorem C22_validate_dataset_skeleton_frame : forall cs k,
   caller_view (ncaller (length cs)) (run_prefix k (validate_impl cs) (oinit (ncaller (length cs)))) = repeat [] (ncaller (length cs)).
@@ -85,6 +97,9 @@ Print Assumptions C22_run_sdmx_skeleton_frame.
 Print Assumptions C22_semantic_analysis_skeleton_frame.
 Print Assumptions C22_prettify_skeleton_frame.
 Print Assumptions C22_generate_sdmx_skeleton_frame.
+Print Assumptions C22_validate_value_domain_skeleton_frame.
+Print Assumptions C22_validate_external_routine_skeleton_frame.
+Print Assumptions C22_create_ast_skeleton_frame.
 Print Assumptions C22_validate_dataset_skeleton_frame.
 Print Assumptions C22_before_fix_validate_dataset_view.
 Print Assumptions C22_before_fix_validate_dataset_refuted.
